@@ -20,10 +20,14 @@ class GeckoWaterHeater(GeckoAutomationFacadeBase):
         super().__init__(facade, "Heater", "HEAT")
         self._is_present = False
 
-        # Attempt to locate the various items needed from the spa accessors
-        self._temperature_unit_accessor = self._spa.accessors[
+        # Attempt to locate the various items needed from the spa accessors, not
+        # every pack has all (or any) of them
+        self._current_temperature_sensor = None
+        self._target_temperature_sensor = None
+        self._real_setpoint_sensor = None
+        self._temperature_unit_accessor = self._spa.accessors.get(
             GeckoConstants.KEY_TEMP_UNITS
-        ]
+        )
         if GeckoConstants.KEY_SETPOINT_G in self._spa.accessors:
             self._target_temperature_sensor = GeckoSensor(
                 facade,
@@ -79,6 +83,8 @@ class GeckoWaterHeater(GeckoAutomationFacadeBase):
     @property
     def target_temperature(self):
         """Get the target temperature of the water"""
+        if self._target_temperature_sensor is None:
+            return None
         return self._target_temperature_sensor.state
 
     def set_target_temperature(self, new_temperature):
@@ -92,37 +98,39 @@ class GeckoWaterHeater(GeckoAutomationFacadeBase):
     @property
     def real_target_temperature(self):
         """Get the real target temperature (takes economy mode into account)"""
+        if self._real_setpoint_sensor is None:
+            return None
         return self._real_setpoint_sensor.state
 
     @property
     def min_temp(self):
         """Get the minimum temperature of the water heater"""
-        return (
-            self.MIN_TEMP_C
-            if self._temperature_unit_accessor.value == "C"
-            else self.MIN_TEMP_F
-        )
+        return self.MIN_TEMP_C if self._is_celsius else self.MIN_TEMP_F
 
     @property
     def max_temp(self):
         """Get the maximum temperature of the water heater"""
-        return (
-            self.MAX_TEMP_C
-            if self._temperature_unit_accessor.value == "C"
-            else self.MAX_TEMP_F
-        )
+        return self.MAX_TEMP_C if self._is_celsius else self.MAX_TEMP_F
 
     @property
     def current_temperature(self):
         """Get the current temperature of the water"""
+        if self._current_temperature_sensor is None:
+            return None
         return self._current_temperature_sensor.state
 
     @property
     def temperature_unit(self):
         """Get the temperature units for the water heater"""
-        if self._temperature_unit_accessor.value == "C":
+        if self._is_celsius:
             return self.TEMP_CELCIUS
         return self.TEMP_FARENHEIGHT
+
+    @property
+    def _is_celsius(self):
+        if self._temperature_unit_accessor is None:
+            return True
+        return self._temperature_unit_accessor.value == "C"
 
     def set_temperature_unit(self, new_unit):
         """Set the temperature units for the water heater"""
@@ -163,6 +171,8 @@ class GeckoWaterHeater(GeckoAutomationFacadeBase):
                 return GeckoConstants.WATER_HEATER_COOLING
 
         # Finally, it's down to the actual temperatures
+        if self.current_temperature is None or self.real_target_temperature is None:
+            return GeckoConstants.WATER_HEATER_IDLE
         if self.current_temperature < self.real_target_temperature:
             return GeckoConstants.WATER_HEATER_HEATING
         elif self.current_temperature > self.real_target_temperature:
@@ -171,6 +181,8 @@ class GeckoWaterHeater(GeckoAutomationFacadeBase):
 
     def format_temperature(self, temperature):
         """Format a temperature value to a printable string"""
+        if temperature is None:
+            return f"?{self.temperature_unit}"
         return f"{temperature:.1f}{self.temperature_unit}"
 
     def __str__(self):
